@@ -754,8 +754,19 @@ void ares_channel_threading_destroy(ares_channel_t *channel)
   channel->cond_empty = NULL;
 }
 
+#ifdef CARES_VERIF
+/* Verification hook (add-only, compiled out unless CARES_VERIF is defined): optional
+ * scheduling perturbation point before the channel lock is taken. */
+void (*cares_verif_yield_fn)(void) = NULL;
+#endif
+
 void ares_channel_lock(const ares_channel_t *channel)
 {
+#ifdef CARES_VERIF
+  if (cares_verif_yield_fn != NULL) {
+    cares_verif_yield_fn();
+  }
+#endif
   ares_thread_mutex_lock(channel->lock);
 }
 
